@@ -1,7 +1,7 @@
 #[cfg(feature = "stubs")]
 use pyo3_stub_gen::derive::gen_stub_pyclass;
 
-use super::Qubit;
+use super::{Qubit, QuotedString};
 use crate::{expression::Expression, pickleable_new, quil::Quil};
 
 #[derive(Clone, Debug, PartialEq, Eq, Hash)]
@@ -42,7 +42,7 @@ impl Quil for Delay {
             qubit.write(writer, fall_back_to_debug)?;
         }
         for frame_name in &self.frame_names {
-            write!(writer, " \"{frame_name}\"")?;
+            write!(writer, " {}", QuotedString(frame_name))?;
         }
         write!(writer, " ",)?;
         self.duration.write(writer, fall_back_to_debug)
